@@ -27,7 +27,8 @@ PROPERTY = "C09"
 LEVEL = "fault_enumeration"
 RULE = (
     "state = {file name -> content} of destination + input directory; transitions = (run configuration, index of "
-    "intercepted file-mutating call, fault kind in error-before/error-after/kill-before/kill-after/torn); breadth-first "
+    "intercepted file-mutating call, fault kind in error-before/error-after/kill-before/kill-after/torn) plus the "
+    "fault-free run of every configuration (an earlier successful run with other inputs/chunking/prefix); breadth-first "
     "from the pristine state with de-duplication on the canonical state; evaluation = one fault-free run of one "
     "configuration in one reached state compared with the pristine-state run. Non-trivial iff the state contains at "
     "least one file that is not an input (a leftover); distinct by (state hash, configuration)"
@@ -77,11 +78,14 @@ RUNS = (
        dict(kind="conf", table="T2", chunk=BIG, prefix="x", fmt="parquet")]
     + [dict(kind="cli", pin="r1", chunk=BIG), dict(kind="cli", pin="r2", chunk=4)]
     + [dict(kind="rollup")]
+    # confidence assignment followed by the roll-up tool working in place (src_dir == dest_dir, the tool's default):
+    # results of an earlier roll-up in that directory are leftovers, not inputs
+    + [dict(kind="confroll", table="T1"), dict(kind="confroll", table="T2")]
 )
 
 
 # quick tier: a representative subset of the configurations (same kinds, both tables, both chunkings, one Parquet)
-QUICK_RUNS = [0, 2, 5, 7, 8, 10, 11, 12]
+QUICK_RUNS = [0, 2, 5, 7, 8, 10, 11, 12, 13, 14]
 
 
 class Env:
@@ -129,6 +133,16 @@ class Env:
                 ds = make_dataset(df, self.fixed / f"{run['table']}{ext}", features=["f_key", "f2"], spectrum=self.spec, write=False)
                 fn = lambda: assign_confidence([ds], max_workers=1, scores=[df["f_key"].values.astype(float)], descs=[True],  # noqa: E731
                                                dest_dir=self.out, prefixes=[run["prefix"]], decoys=True)
+            elif run["kind"] == "confroll":
+                df = self.tabs[run["table"]]
+                ds = make_dataset(df, self.fixed / f"{run['table']}.pin", features=["f_key", "f2"], spectrum=self.spec, write=False)
+                sub = self.out / "inplace"
+
+                def fn():
+                    sub.mkdir(exist_ok=True)
+                    assign_confidence([ds], max_workers=1, scores=[df["f_key"].values.astype(float)], descs=[True], dest_dir=sub,
+                                      file_root="m.", prefixes=[None], decoys=True)
+                    brew_rollup.main(["--level", "peptide", "--src_dir", str(sub), "--dest_dir", str(sub), "--verbosity", "0"])
             elif run["kind"] == "rollup":
                 fn = lambda: brew_rollup.main(["--level", "psm", "--src_dir", str(self.fixed / "res"), "--dest_dir", str(self.out),  # noqa: E731
                                                "--verbosity", "0"])
@@ -145,7 +159,7 @@ class Env:
         return status, res, inj.trace, inj.fired
 
     def result_names(self, run):
-        if run["kind"] == "rollup":
+        if run["kind"] in ("rollup", "confroll"):
             return None
         pfx = (run["prefix"] + ".") if run.get("prefix") else ""
         return {f"0:{pfx}{td}.{lvl}" for td in ("targets", "decoys") for lvl in ("psms", "peptides")}
@@ -200,12 +214,14 @@ def check_state_run(state, run, acc, hist):
     want = {k: v for k, v in clean.items() if k.startswith("0:") and (names is None or k in names)}
     if names is None:  # roll-up tool: its output files are whatever the pristine run wrote (minus its temp files)
         want = {k: v for k, v in want.items() if ".temp." not in k}
+        if run["kind"] == "confroll":
+            want = {k: v for k, v in want.items() if k.startswith("0:inplace/")}
     diff = [k for k in want if after.get(k) != want[k]]
     if diff:
         acc.violation(Violation(f"{tag}-results-depend-on-leftovers",
                                 f"{run}: result file(s) {sorted(diff)[:4]} differ from the pristine-directory run when the directory "
                                 f"already holds {leftovers[:6]}", case))
-    if run["kind"] != "rollup":
+    if run["kind"] not in ("rollup", "confroll"):
         new = [k for k in after if k not in state and k not in want and k.startswith("0:")]
         new += [k for k in after if k.startswith("1:") and k.endswith(".tsv") and k not in state]
         if new:
@@ -221,7 +237,11 @@ def check_state_run(state, run, acc, hist):
         tsv = f"1:{run['pin']}.pin.tsv"
         if tsv in after:
             acc.violation(Violation("cli-leaves-intermediate-files", f"{tsv} remains after a successful run", case))
+    _AFTER[0] = after
     return "ok", trace
+
+
+_AFTER = [None]
 
 
 def worker(item):
@@ -236,6 +256,10 @@ def worker(item):
              sample={"state_files": sorted(state), "run": run, "history": hist} if nontrivial and acc.evaluations % 50 == 1 else None)
     if expand_kinds and cls == "ok":
         seen = {}
+        # an earlier *successful* run (other inputs, chunking, prefix) is a history step as well
+        ok_state = _AFTER[0]
+        seen[faults.state_key(ok_state)] = (ok_state, hist + [{"run": run, "fault": [-1, "none", []]}])
+        acc.count("transitions")
         for k in range(len(trace)):
             for kind in expand_kinds:
                 if kind == "torn" and not (trace[k][0].startswith("to_csv") or trace[k][0].startswith("open") or trace[k][0] == "to_parquet"):
@@ -316,7 +340,7 @@ def replay(case):
     e = env()
     faults.materialize(e.initial, e.dirs())
     for step in case["history"]:
-        e.execute(step["run"], plan=(step["fault"][0], step["fault"][1]))
+        e.execute(step["run"], plan=None if step["fault"][1] == "none" else (step["fault"][0], step["fault"][1]))
     state = faults.snapshot(e.dirs())
     check_state_run(state, case["run"], acc, case["history"])
     return acc.violations
